@@ -33,7 +33,7 @@ RULE = (
 MUST_HIT = ["skip_between_samples", "empty_slice", "lazy_reader", "wav_sw1", "wav_sw4", "placeholder_name",
             "exists_refused", "numpy_multichannel", "to_file_byteslike", "skip_beyond_65536_samples", "explicit_format", "to_file_typed_array", "more_than_1MiB", "same_path_rewritten",
             "numpy_export_modified_then_exported_again", "raw_content_starting_with_a_wav_header", "snapshot_of_16MiB_or_more", "dot_in_a_directory_name",
-            "relative_path_with_dots", "both_names_short_first"]
+            "relative_path_with_dots", "both_names_short_first", "placeholder_in_a_directory_name"]
 ASSUMPTIONS = ["files are re-read with stdlib wave/open to judge the writer independently of the reader"]
 BOUNDS = {"quick": dict(n=500, maxN=200), "thorough": dict(n=6000, maxN=1500)}
 _ctr = [0]
@@ -142,11 +142,16 @@ def check_case(case, rec):
     # format that would (legitimately) be read as the extension -> no template there
     tmpl = case.get("tmpl") if (writer == "save_str" and start is not None and how != "noext") else None
     stem = tmpl if tmpl else "file"
-    name_t = os.path.join(d_arg, stem + ext)
+    sub_t = case.get("tmpl_dir") if tmpl else None
+    name_t = os.path.join(d_arg, sub_t, stem + ext) if sub_t else os.path.join(d_arg, stem + ext)
     dur = N / sr
     expected_name = name_t.format(start=start, end=(start + dur) if start is not None else None, duration=dur) if writer == "save_str" else name_t
     if tmpl:
         classes.add("placeholder_name")
+    if sub_t:
+        # a placeholder in a directory of the path: the (already existing) directory it names is meant
+        os.makedirs(os.path.dirname(expected_name), exist_ok=True)
+        classes.add("placeholder_in_a_directory_name")
     try:
         region = auditok.AudioRegion(data, sr, sw, ch, start=start) if start is not None else auditok.AudioRegion(data, sr, sw, ch)
         # ---- exists_ok
@@ -347,6 +352,11 @@ def check_case(case, rec):
     finally:
         if cwd0 is not None:
             os.chdir(cwd0)
+        import shutil
+
+        for fn_ in os.listdir(d):
+            if os.path.isdir(os.path.join(d, fn_)):
+                shutil.rmtree(os.path.join(d, fn_), ignore_errors=True)
         for fn_ in os.listdir(d):
             try:
                 os.remove(os.path.join(d, fn_))
@@ -379,6 +389,11 @@ def explicit_cases():
         dict(base, N=300000, sw=4, ch=1, sr=16000, fmt="raw", writer="to_file", data_kind="numpy", reader="load", skip=[299990, 0], mr=None, tmpl=None),
         dict(base, N=40, sw=2, ch=2, fmt="wav", writer="to_file", data_kind="array", reader="load", skip=None, mr=None, tmpl=None),
         dict(base, N=66000, sw=2, ch=1, sr=8000, fmt="raw", reader="load_lazy", skip=[65999, 0.25], mr=None, tmpl=None),
+        dict(base, N=9000, sw=2, ch=2, sr=16000, fmt="raw", reader="load_lazy", skip=[5000, 0], mr=[300, 0], tmpl=None),
+        dict(base, N=9000, sw=1, ch=3, sr=8000, fmt="raw", reader="load_lazy", skip=[4097, 0], mr=None, tmpl=None),
+        dict(base, N=9000, sw=4, ch=2, sr=8000, fmt="wav", reader="load_lazy", skip=[8190, 0.5], mr=None, tmpl=None),
+        dict(base, tmpl_dir="event_{start:.2f}", tmpl="audio_{duration}"),
+        dict(base, tmpl_dir="d{end}", tmpl="x", fmt="raw", reader="from_file_eager"),
         dict(base, fmt="raw", riff_prefix=True, N=40, tmpl=None, skip=None, mr=None),
         dict(base, fmt="raw", riff_prefix=True, N=6, sw=2, ch=1, reader="from_file_eager", tmpl=None),
         dict(base, fmt="raw", riff_prefix=True, N=200, sw=2, ch=2, reader="from_file_lazy", tmpl=None),
@@ -434,6 +449,11 @@ def strategy(draw, maxN):
     case["riff_prefix"] = fmt == "raw" and draw(rarely(5))
     case["other_fs"] = draw(rarely(5))
     case["dotted_dir"] = draw(rarely(4))
+    if draw(rarely(6)):
+        case["tmpl_dir"] = draw(st.sampled_from(["ev_{start:.2f}", "d{end}", "{duration}s", "x_{start}_{end:.1f}"]))
+    if big and N >= 9000 and fmt == "raw" and draw(st.booleans()):
+        case["reader"] = "load_lazy"
+        case["skip"] = [draw(st.sampled_from([4097, 5000, 8192, 8193])), 0]
     case["relative_dot"] = draw(st.sampled_from([0, 0, 0, 0, 1, 2])) if not case["other_fs"] else 0
     case["both_names"] = draw(st.sampled_from([None, None, None, "short_first", "long_first"]))
     if draw(rarely(25)):
